@@ -180,7 +180,10 @@ class Options:
             option_number += delta
             if len(rawdata) < length:
                 raise UnparsableMessage("Option announced but absent")
-            option = option_number.create_option(decode=rawdata[:length])
+            try:
+                option = option_number.create_option(decode=rawdata[:length])
+            except UnicodeDecodeError as e:
+                raise UnparsableMessage("Option value is not valid UTF-8") from e
             self.add_option(option)
             rawdata = rawdata[length:]
         return b""
